@@ -11,15 +11,17 @@ import itertools
 
 from ..common import leanio, rtlgen
 from ..common.leanio import InfraError
+from . import c07_flip
 
 PID = 'C07'
-DRIVERS = ['rtl']
-MODULE = 'PymtlVerif.Props.C07'
-THEOREMS = ['PV.C07.' + t for t in ['denoteFF_wf', 'ff_perm', 'ff_reads_pre_edge', 'hold', 'last_wins', 'edge', 'next_eq_cur', 'tick_ff_perm']]
+DRIVERS = ['rtl', 'flip']
+MODULE = ['PymtlVerif.Props.C07', 'PymtlVerif.Props.C07f']
+THEOREMS = ['PV.C07.' + t for t in ['denoteFF_wf', 'ff_perm', 'ff_reads_pre_edge', 'hold', 'last_wins', 'edge', 'next_eq_cur', 'tick_ff_perm']] + c07_flip.THEOREMS
+THEOREM_MODULE = {t: 'PymtlVerif.Props.C07f' for t in c07_flip.THEOREMS}
 TRUSTED = [
   'Model/Rtl.lean ff part: <<= evaluates on current values and writes the shadow; flip installs the shadow of written registers; '
   'update_ff blocks assign whole top-level signals only (the DSL rejects slices/fields on the LHS of <<=)',
-]
+] + c07_flip.TRUSTED
 ASSUMPTIONS = [
   'struct-typed registers are bit ranges of one signal in the model (their leaves flip together by construction); generated registers are Bits-typed',
   'update_ff blocks reading non-signal Python state are outside the hypothesis',
@@ -62,6 +64,7 @@ def run(ck):
   n = 200 if ck.tier == 'quick' else 4000
   maxperm = 6 if ck.tier == 'quick' else 120
   lines, meta = [], []
+  flip_tops = []
   for _ in range(n):
     if rng.random() < 0.2:
       # many registers, one (mostly branchy) update_ff block each: exercises the meta-block packing of Mamba2020
@@ -78,6 +81,7 @@ def run(ck):
     runs = []
     for flow in ['default', 'simple', 'heutopo', 'mamba', 'unroll']:
       rs = rtlgen.RealSim(cls, d, flow)
+      if flow == 'default': flip_lines_add(ck, rs.top, src, flip_tops)
       tr, _ = rtlgen.run_real(rs, cycles, rerun=False)
       runs.append((flow, [e[1] for e in rs.schedule_entries()], rs.ff_entries(), tr))
     comb_order = runs[1][1]
@@ -118,7 +122,17 @@ def run(ck):
       ck.disagreement('Model/Rtl tick≈sim_tick', {'source': src, 'flow': r[0], 'ff': list(r[2]), 'inputs': cycles, 'signals': [s_.path for s_ in d.sigs]},
                       got[k] if k >= 0 else rep, r[3][k] if k >= 0 else 'ran')
   ck.extra_cov['designs'] = n
+  # the grouping loop of schedule_posedge_flip (Props/C07f.lean): the C07 designs above and component trees
+  c07_flip.run(ck, flip_tops)
+
+def flip_lines_add(ck, top, src, acc):
+  # the generated double_buffer source lives in linecache under one fixed name: parse it right after scheduling
+  lines, meta = [], []
+  c07_flip.check_top(ck, top, src, 'rtlgen/default', lines, meta)
+  acc.append((lines, meta))
 
 def replay(ck, data):
   print(data.get('kind'), data.get('signature')); print(str(data.get('detail'))[:1500])
+  r = c07_flip.replay(ck, data)
+  if r is not None: return r
   return rtlgen.replay_source(ck, data.get('case') or {})
